@@ -85,6 +85,10 @@ Theorem C14_factorial : forall n r, wf n = true -> 0 <= den n -> x_factorial n l
   wf r = true /\ den r = zfact (Z.to_nat (den n)).
 Proof. exact x_factorial_ok. Qed.
 
+(* conversion from a float holding an integer exactly (floor/ceil/trunc of n.to_float()) *)
+Theorem C14_from_float : forall z, ok (from_f64_exact z) z.
+Proof. exact from_f64_exact_ok. Qed.
+
 (* non-vacuity: canonical values exist on both sides of the 64-bit boundary, the fuelled
    functions do return values, and the boundary cases that used to fail are covered *)
 Example C14_nonvacuous :
@@ -125,3 +129,4 @@ Print Assumptions C14_binom.
 Print Assumptions C14_digits.
 Print Assumptions C14_factorial.
 Print Assumptions C14_nonvacuous.
+Print Assumptions C14_from_float.
